@@ -7,19 +7,19 @@
 EXTENDS Syncer, TLC, Json
 CONSTANT D
 VARIABLE hist
-gvars == <<stored, pruned, foreign, sampled, now, netHead, peers, trusted, phase, subj, ongoing, hsub, sawPeer, lastFetch, hist>>
+gvars == <<stored, pruned, foreign, sampled, now, netHead, peers, trusted, phase, subj, ongoing, hsub, sawPeer, slowH, lastFetch, hist>>
 
 EnvStep(a) == hist' = Append(hist, a)
 Own    == UNCHANGED hist
 
 \* the node hears of a higher head: netHead grows, the clock does not move
 Learn == /\ netHead < N /\ netHead' = netHead + 1
-         /\ UNCHANGED <<stored, pruned, foreign, sampled, now, peers, trusted, phase, subj, ongoing, hsub, sawPeer, lastFetch>>
+         /\ UNCHANGED <<stored, pruned, foreign, sampled, now, peers, trusted, phase, subj, ongoing, hsub, sawPeer, slowH, lastFetch>>
 
 GInit == /\ Init /\ hist = <<>>
 GInit2 == /\ stored = {} /\ pruned = {} /\ foreign = {} /\ sampled = {} /\ now = N /\ netHead \in {N - 3, N - 1}
           /\ peers = 0 /\ trusted = FALSE /\ phase = "connecting" /\ subj = 0 /\ ongoing = <<>> /\ hsub = FALSE
-          /\ sawPeer = FALSE /\ lastFetch = NoFetch /\ hist = <<[a |-> "start", h |-> netHead]>>
+          /\ sawPeer = FALSE /\ slowH = 0 /\ lastFetch = NoFetch /\ hist = <<[a |-> "start", h |-> netHead]>>
 
 GNext ==
     /\ Len(hist) < D
